@@ -236,6 +236,7 @@ MUTANTS += [
     M("scalar target switches the ramp on", _B, "self._target_efficiency = value\n            self._adapative_target_efficiency = False", "self._target_efficiency = value\n            self._adapative_target_efficiency = True", "C07.opts"),
 ]
 NEUTRALS = [
+    __import__("aspire_sa.rules.smcloop", fromlist=["HELPER_NEUTRAL"]).HELPER_NEUTRAL,
     M("comparison mirrored with swapped branches", _B, "if eff >= target_eff:\n                    beta_min = beta_try\n                else:\n                    beta_max = beta_try",
       "if eff < target_eff:\n                    beta_max = beta_try\n                else:\n                    beta_min = beta_try"),
     M("midpoint as lo + half width", _B, "beta_try = 0.5 * (beta_max + beta_min)", "beta_try = beta_min + (beta_max - beta_min) / 2"),
